@@ -21,7 +21,7 @@ C01–C03):
 """
 from .. import cfgutil as cu
 from .. import paths
-from .C14 import canon, _explore_facts
+from .C14 import canon, rcanon, _explore_facts
 
 LEVEL = 'other'
 EXPLANATION = (
@@ -247,9 +247,13 @@ def r1_2(ctx):
                    name, '/'.join(k.upper() for k in missing)))
         if not nocase and not (xor and ('T', tests['nocase']) not in have):
             pass
-        args = [canon(f, a) for a in f.call_args(c)[:4]]
-        ok = args == ['(%s + %s)' % (data, off), '(%s - %s)' % (dsize, off), '%s->string' % S,
-                      '%s->length' % S]
+        args = [rcanon(f, a) for a in f.call_args(c)[:4]]
+        Sx = S
+        for d_ in f.all_nodes():
+            if d_['k'] == 'decl' and d_['name'] == S and d_['i'] in cu.stable_defs(f):
+                Sx = canon(f, cu.stable_defs(f)[d_['i']], 0, True)
+        ok = args == ['(%s + %s)' % (data, off), '(%s - %s)' % (dsize, off), '%s->string' % Sx,
+                      '%s->length' % Sx]
         ctx.ob('R1.2', key + ':arguments', ok, f.loc(c),
                'compares (data + offset, data_size - offset) with (string->string, string->length)'
                if ok else 'called with (%s)' % ', '.join(args))
